@@ -77,24 +77,214 @@ __CPROVER_ensures(g_pm_frees == __CPROVER_old(g_pm_frees) + 1)
 #define P_ASSIGNS_COMMON \
 	__CPROVER_assigns(state->errorCode, state->errorPos, *(state->uri), g_pm_mallocs, g_pm_frees)
 
-/* rule functions taking the memory manager */
-#define P_RULE4(Name) \
-static const URI_CHAR *URI_FUNC(Name)(URI_TYPE(ParserState) *state, const URI_CHAR *first, const URI_CHAR *afterLast, UriMemoryManager *memory) \
-	P_REQUIRES_COMMON __CPROVER_requires(P_MEMORY(memory)) P_ASSIGNS_COMMON P_ENSURES_COMMON ;
-/* rule functions that cannot fail and do not take the memory manager: result never NULL */
-#define P_RULE3(Name) \
-static const URI_CHAR *URI_FUNC(Name)(URI_TYPE(ParserState) *state, const URI_CHAR *first, const URI_CHAR *afterLast) \
-	P_REQUIRES_COMMON __CPROVER_assigns(*(state->uri)) \
-	__CPROVER_ensures(P_POS(first, __CPROVER_return_value, afterLast)) \
-	__CPROVER_ensures(P_INV(state, __CPROVER_return_value)) ;
+/* ---- ghost call trace (dispatch obligations, -DP_LOG): every rule function's interface contract appends
+ * (rule id, position argument, result); the code never reads these variables ---- */
+#ifdef P_LOG
+# define TRMAX 6
+unsigned g_tr_n;
+int g_tr_rule[TRMAX];
+const URI_CHAR *g_tr_first[TRMAX];
+const URI_CHAR *g_tr_ret[TRMAX];
+# define P_IDOF(Name) P_ID_##Name
+# define P_LOG_REQUIRES __CPROVER_requires(g_tr_n < TRMAX)
+# define P_LOG_ASSIGNS , g_tr_n, g_tr_rule[g_tr_n], g_tr_first[g_tr_n], g_tr_ret[g_tr_n]
+# define P_LOG_ENSURES(Id) __CPROVER_ensures(g_tr_n == __CPROVER_old(g_tr_n) + 1 && g_tr_rule[__CPROVER_old(g_tr_n)] == (Id) \
+	&& g_tr_first[__CPROVER_old(g_tr_n)] == first && g_tr_ret[__CPROVER_old(g_tr_n)] == __CPROVER_return_value)
+#else
+# define P_IDOF(Name) 0
+# define P_LOG_REQUIRES
+# define P_LOG_ASSIGNS
+# define P_LOG_ENSURES(Id)
+#endif
 
-P_RULE4(ParseAuthority) P_RULE3(ParseAuthorityTwo) P_RULE3(ParseHexZero) P_RULE4(ParseHierPart) P_RULE4(ParseIpFutLoop)
-P_RULE4(ParseIpFutStopGo) P_RULE4(ParseIpFuture) P_RULE4(ParseIpLit2) P_RULE4(ParseMustBeSegmentNzNc) P_RULE4(ParseOwnHost)
-P_RULE4(ParseOwnHost2) P_RULE4(ParseOwnHostUserInfo) P_RULE4(ParseOwnHostUserInfoNz) P_RULE4(ParseOwnPortUserInfo)
-P_RULE4(ParseOwnUserInfo) P_RULE4(ParsePartHelperTwo) P_RULE4(ParsePathAbsEmpty) P_RULE4(ParsePathAbsNoLeadSlash)
-P_RULE4(ParsePathRootless) P_RULE4(ParsePchar) P_RULE4(ParsePctEncoded) P_RULE4(ParsePctSubUnres) P_RULE3(ParsePort)
-P_RULE4(ParseQueryFrag) P_RULE4(ParseSegment) P_RULE4(ParseSegmentNz) P_RULE4(ParseSegmentNzNcOrScheme2) P_RULE4(ParseUriReference)
-P_RULE4(ParseUriTail) P_RULE4(ParseUriTailTwo) P_RULE4(ParseZeroMoreSlashSegs) P_RULE4(ParseIPv6address2)
+/* rule functions taking the memory manager */
+#define P_RULE4_NAMED(FuncName, Id) \
+static const URI_CHAR *FuncName(URI_TYPE(ParserState) *state, const URI_CHAR *first, const URI_CHAR *afterLast, UriMemoryManager *memory) \
+	P_REQUIRES_COMMON __CPROVER_requires(P_MEMORY(memory)) P_LOG_REQUIRES \
+	__CPROVER_assigns(state->errorCode, state->errorPos, *(state->uri), g_pm_mallocs, g_pm_frees P_LOG_ASSIGNS) \
+	P_ENSURES_COMMON P_LOG_ENSURES(Id) ;
+#define P_RULE4(Name, Id) P_RULE4_NAMED(URI_FUNC(Name), Id)
+/* rule functions that cannot fail and do not take the memory manager: result never NULL */
+#define P_RULE3_NAMED(FuncName, Id) \
+static const URI_CHAR *FuncName(URI_TYPE(ParserState) *state, const URI_CHAR *first, const URI_CHAR *afterLast) \
+	P_REQUIRES_COMMON P_LOG_REQUIRES __CPROVER_assigns(*(state->uri) P_LOG_ASSIGNS) \
+	__CPROVER_ensures(P_POS(first, __CPROVER_return_value, afterLast)) \
+	__CPROVER_ensures(P_INV(state, __CPROVER_return_value)) P_LOG_ENSURES(Id) ;
+#define P_RULE3(Name, Id) P_RULE3_NAMED(URI_FUNC(Name), Id)
+
+#ifdef P_LOG
+/* ---- dispatch contract of the one function selected by the generated header dispatch_current.h: the interface clauses
+ * verbatim, plus "for every lookahead the calls, arguments, result and error position are those of the LL(1) table".
+ * An out-of-memory exit of a helper (uriStopMalloc) is permitted anywhere: fault handling is C14's subject. ---- */
+# define D_OFF(p) (P_OFF(p) / sizeof(URI_CHAR))
+# define D_F0 D_OFF(first)
+# define D_END D_OFF(afterLast)
+# define D_CH(o) (g_in[(o)])
+# define T0_ __CPROVER_old(g_tr_n)
+# define D_RET_IS(pos) (__CPROVER_return_value != NULL && D_OFF(__CPROVER_return_value) == (pos))
+# define D_RET_NULL (__CPROVER_return_value == NULL)
+# define D_FAILS_AT(p, t) (__CPROVER_return_value == NULL && state->errorCode == URI_ERROR_SYNTAX && state->errorPos != NULL \
+	&& D_OFF(state->errorPos) == (p) && g_tr_n == T0_ + (t))
+# define P_CALLNAME2(x) URI_FUNC(x)
+# define P_CALLNAME(x) P_CALLNAME2(x)
+# define P_TWINNAME3(x) URI_FUNC(x##__rec)
+# define P_TWINNAME2(x) P_TWINNAME3(x)
+# define P_TWINNAME(x) P_TWINNAME2(x)
+# if P_DISPATCH_HAS_MEMORY
+#  define P_DISPATCH_DECL \
+static const URI_CHAR *P_CALLNAME(P_DISPATCH_FUNC)(URI_TYPE(ParserState) *state, const URI_CHAR *first, const URI_CHAR *afterLast, UriMemoryManager *memory) \
+	P_REQUIRES_COMMON __CPROVER_requires(P_MEMORY(memory)) __CPROVER_requires(g_tr_n == 0) P_DISPATCH_EXTRA_REQ \
+	__CPROVER_assigns(state->errorCode, state->errorPos, *(state->uri), g_pm_mallocs, g_pm_frees, g_tr_n, \
+		__CPROVER_object_whole(g_tr_rule), __CPROVER_object_whole(g_tr_first), __CPROVER_object_whole(g_tr_ret)) \
+	P_ENSURES_COMMON \
+	__CPROVER_ensures((__CPROVER_return_value == NULL && state->errorCode == URI_ERROR_MALLOC) || (P_DISPATCH_FORMULA)) ; \
+	P_RULE4_NAMED(P_TWINNAME(P_DISPATCH_FUNC), P_DISPATCH_ID)
+# else
+#  define P_DISPATCH_DECL \
+static const URI_CHAR *P_CALLNAME(P_DISPATCH_FUNC)(URI_TYPE(ParserState) *state, const URI_CHAR *first, const URI_CHAR *afterLast) \
+	P_REQUIRES_COMMON __CPROVER_requires(g_tr_n == 0) \
+	__CPROVER_assigns(*(state->uri), g_tr_n, __CPROVER_object_whole(g_tr_rule), __CPROVER_object_whole(g_tr_first), __CPROVER_object_whole(g_tr_ret)) \
+	__CPROVER_ensures(P_POS(first, __CPROVER_return_value, afterLast)) \
+	__CPROVER_ensures(P_INV(state, __CPROVER_return_value)) \
+	__CPROVER_ensures(P_DISPATCH_FORMULA) ; \
+	P_RULE3_NAMED(P_TWINNAME(P_DISPATCH_FUNC), P_DISPATCH_ID)
+# endif
+#endif
+
+/* "First character has already been checked before entering this rule" (comment in the code): caller's obligation */
+#define P_RULE4X(Name, Id, Extra) \
+static const URI_CHAR *URI_FUNC(Name)(URI_TYPE(ParserState) *state, const URI_CHAR *first, const URI_CHAR *afterLast, UriMemoryManager *memory) \
+	P_REQUIRES_COMMON __CPROVER_requires(P_MEMORY(memory)) __CPROVER_requires(Extra) P_LOG_REQUIRES \
+	__CPROVER_assigns(state->errorCode, state->errorPos, *(state->uri), g_pm_mallocs, g_pm_frees P_LOG_ASSIGNS) \
+	P_ENSURES_COMMON P_LOG_ENSURES(Id) ;
+#ifndef P_DECL_ParseAuthority
+# define P_DECL_ParseAuthority P_RULE4(ParseAuthority, P_IDOF(ParseAuthority))
+#endif
+P_DECL_ParseAuthority
+#ifndef P_DECL_ParseHierPart
+# define P_DECL_ParseHierPart P_RULE4(ParseHierPart, P_IDOF(ParseHierPart))
+#endif
+P_DECL_ParseHierPart
+#ifndef P_DECL_ParseIpFutLoop
+# define P_DECL_ParseIpFutLoop P_RULE4(ParseIpFutLoop, P_IDOF(ParseIpFutLoop))
+#endif
+P_DECL_ParseIpFutLoop
+#ifndef P_DECL_ParseIpFutStopGo
+# define P_DECL_ParseIpFutStopGo P_RULE4(ParseIpFutStopGo, P_IDOF(ParseIpFutStopGo))
+#endif
+P_DECL_ParseIpFutStopGo
+#ifndef P_DECL_ParseIpFuture
+# define P_DECL_ParseIpFuture P_RULE4X(ParseIpFuture, P_IDOF(ParseIpFuture), (P_OFF(first) >= P_OFF(afterLast) || *first == _UT('v') || *first == _UT('V')))
+#endif
+P_DECL_ParseIpFuture
+#ifndef P_DECL_ParseIpLit2
+# define P_DECL_ParseIpLit2 P_RULE4(ParseIpLit2, P_IDOF(ParseIpLit2))
+#endif
+P_DECL_ParseIpLit2
+#ifndef P_DECL_ParseMustBeSegmentNzNc
+# define P_DECL_ParseMustBeSegmentNzNc P_RULE4(ParseMustBeSegmentNzNc, P_IDOF(ParseMustBeSegmentNzNc))
+#endif
+P_DECL_ParseMustBeSegmentNzNc
+#ifndef P_DECL_ParseOwnHost
+# define P_DECL_ParseOwnHost P_RULE4(ParseOwnHost, P_IDOF(ParseOwnHost))
+#endif
+P_DECL_ParseOwnHost
+#ifndef P_DECL_ParseOwnHost2
+# define P_DECL_ParseOwnHost2 P_RULE4(ParseOwnHost2, P_IDOF(ParseOwnHost2))
+#endif
+P_DECL_ParseOwnHost2
+#ifndef P_DECL_ParseOwnHostUserInfo
+# define P_DECL_ParseOwnHostUserInfo P_RULE4(ParseOwnHostUserInfo, P_IDOF(ParseOwnHostUserInfo))
+#endif
+P_DECL_ParseOwnHostUserInfo
+#ifndef P_DECL_ParseOwnHostUserInfoNz
+# define P_DECL_ParseOwnHostUserInfoNz P_RULE4(ParseOwnHostUserInfoNz, P_IDOF(ParseOwnHostUserInfoNz))
+#endif
+P_DECL_ParseOwnHostUserInfoNz
+#ifndef P_DECL_ParseOwnPortUserInfo
+# define P_DECL_ParseOwnPortUserInfo P_RULE4(ParseOwnPortUserInfo, P_IDOF(ParseOwnPortUserInfo))
+#endif
+P_DECL_ParseOwnPortUserInfo
+#ifndef P_DECL_ParseOwnUserInfo
+# define P_DECL_ParseOwnUserInfo P_RULE4(ParseOwnUserInfo, P_IDOF(ParseOwnUserInfo))
+#endif
+P_DECL_ParseOwnUserInfo
+#ifndef P_DECL_ParsePartHelperTwo
+# define P_DECL_ParsePartHelperTwo P_RULE4(ParsePartHelperTwo, P_IDOF(ParsePartHelperTwo))
+#endif
+P_DECL_ParsePartHelperTwo
+#ifndef P_DECL_ParsePathAbsEmpty
+# define P_DECL_ParsePathAbsEmpty P_RULE4(ParsePathAbsEmpty, P_IDOF(ParsePathAbsEmpty))
+#endif
+P_DECL_ParsePathAbsEmpty
+#ifndef P_DECL_ParsePathAbsNoLeadSlash
+# define P_DECL_ParsePathAbsNoLeadSlash P_RULE4(ParsePathAbsNoLeadSlash, P_IDOF(ParsePathAbsNoLeadSlash))
+#endif
+P_DECL_ParsePathAbsNoLeadSlash
+#ifndef P_DECL_ParsePathRootless
+# define P_DECL_ParsePathRootless P_RULE4(ParsePathRootless, P_IDOF(ParsePathRootless))
+#endif
+P_DECL_ParsePathRootless
+#ifndef P_DECL_ParsePchar
+# define P_DECL_ParsePchar P_RULE4(ParsePchar, P_IDOF(ParsePchar))
+#endif
+P_DECL_ParsePchar
+#ifndef P_DECL_ParsePctEncoded
+# define P_DECL_ParsePctEncoded P_RULE4X(ParsePctEncoded, P_IDOF(ParsePctEncoded), (P_OFF(first) >= P_OFF(afterLast) || *first == _UT('%')))
+#endif
+P_DECL_ParsePctEncoded
+#ifndef P_DECL_ParsePctSubUnres
+# define P_DECL_ParsePctSubUnres P_RULE4(ParsePctSubUnres, P_IDOF(ParsePctSubUnres))
+#endif
+P_DECL_ParsePctSubUnres
+#ifndef P_DECL_ParseQueryFrag
+# define P_DECL_ParseQueryFrag P_RULE4(ParseQueryFrag, P_IDOF(ParseQueryFrag))
+#endif
+P_DECL_ParseQueryFrag
+#ifndef P_DECL_ParseSegment
+# define P_DECL_ParseSegment P_RULE4(ParseSegment, P_IDOF(ParseSegment))
+#endif
+P_DECL_ParseSegment
+#ifndef P_DECL_ParseSegmentNz
+# define P_DECL_ParseSegmentNz P_RULE4(ParseSegmentNz, P_IDOF(ParseSegmentNz))
+#endif
+P_DECL_ParseSegmentNz
+#ifndef P_DECL_ParseSegmentNzNcOrScheme2
+# define P_DECL_ParseSegmentNzNcOrScheme2 P_RULE4(ParseSegmentNzNcOrScheme2, P_IDOF(ParseSegmentNzNcOrScheme2))
+#endif
+P_DECL_ParseSegmentNzNcOrScheme2
+#ifndef P_DECL_ParseUriReference
+# define P_DECL_ParseUriReference P_RULE4(ParseUriReference, P_IDOF(ParseUriReference))
+#endif
+P_DECL_ParseUriReference
+#ifndef P_DECL_ParseUriTail
+# define P_DECL_ParseUriTail P_RULE4(ParseUriTail, P_IDOF(ParseUriTail))
+#endif
+P_DECL_ParseUriTail
+#ifndef P_DECL_ParseUriTailTwo
+# define P_DECL_ParseUriTailTwo P_RULE4(ParseUriTailTwo, P_IDOF(ParseUriTailTwo))
+#endif
+P_DECL_ParseUriTailTwo
+#ifndef P_DECL_ParseZeroMoreSlashSegs
+# define P_DECL_ParseZeroMoreSlashSegs P_RULE4(ParseZeroMoreSlashSegs, P_IDOF(ParseZeroMoreSlashSegs))
+#endif
+P_DECL_ParseZeroMoreSlashSegs
+#ifndef P_DECL_ParseIPv6address2
+# define P_DECL_ParseIPv6address2 P_RULE4(ParseIPv6address2, P_IDOF(ParseIPv6address2))
+#endif
+P_DECL_ParseIPv6address2
+#ifndef P_DECL_ParseAuthorityTwo
+# define P_DECL_ParseAuthorityTwo P_RULE3(ParseAuthorityTwo, P_IDOF(ParseAuthorityTwo))
+#endif
+P_DECL_ParseAuthorityTwo
+#ifndef P_DECL_ParseHexZero
+# define P_DECL_ParseHexZero P_RULE3(ParseHexZero, P_IDOF(ParseHexZero))
+#endif
+P_DECL_ParseHexZero
+#ifndef P_DECL_ParsePort
+# define P_DECL_ParsePort P_RULE3(ParsePort, P_IDOF(ParsePort))
+#endif
+P_DECL_ParsePort
 
 /* ---- helpers ---- */
 /* error exits: release everything, record the error */
